@@ -266,6 +266,13 @@ func cellFromCellBlock(b []byte) (*pb.Cell, uint32, error) {
 }
 
 func deserializeCellBlocks(b []byte, cellsLen uint32) ([]*pb.Cell, uint32, error) {
+	// The cell count comes from the wire: don't allocate for more cells than the
+	// buffer can hold (a cell is at least 4+4+4+2+1+8+1 bytes long).
+	const minCellLen = 4 + 4 + 4 + 2 + 1 + 8 + 1
+	if uint64(cellsLen) > uint64(len(b))/minCellLen {
+		return nil, 0, fmt.Errorf(
+			"buffer is too small: %d bytes cannot hold %d cells", len(b), cellsLen)
+	}
 	cells := make([]*pb.Cell, cellsLen)
 	var readLen uint32
 	for i := 0; i < int(cellsLen); i++ {
